@@ -163,3 +163,75 @@ impl FeeFields {
     pub open spec fn spec_fee(&self) -> int { (self.raw & 0xFF_FFFF_FFFF) as int }
 }
 pub struct SecpMessage { pub b: [u8; 32] }
+
+// ---- grin_keychain paths, addresses (opaque; functional)
+// grin_keychain: an Identifier is 17 bytes = depth (u8) ++ 4 big-endian u32 child numbers; to_path/from_path
+// convert between the two forms (A-path: they are mutually inverse — a bijection on the 17 bytes)
+pub struct ChildNumber { pub n: u32 }
+impl Clone for ChildNumber { #[verifier::external_body] fn clone(&self) -> (r: Self) ensures r == *self { unimplemented!() } }
+impl Copy for ChildNumber {}
+impl From<u32> for ChildNumber { #[verifier::external_body] fn from(n: u32) -> (r: ChildNumber) ensures r.n == n { unimplemented!() } }
+pub struct ExtKeychainPath { pub depth: u8, pub path: [ChildNumber; 4] }
+pub uninterp spec fn spec_path_depth(id: Identifier) -> u8;
+pub uninterp spec fn spec_path_seq(id: Identifier) -> Seq<ChildNumber>;
+pub uninterp spec fn spec_from_path(depth: u8, path: Seq<ChildNumber>) -> Identifier;
+#[verifier::external_body]
+pub proof fn axiom_path_roundtrip(depth: u8, path: Seq<ChildNumber>)
+    requires path.len() == 4
+    ensures spec_path_depth(spec_from_path(depth, path)) == depth, spec_path_seq(spec_from_path(depth, path)) == path { }
+#[verifier::external_body]
+pub proof fn axiom_path_len(id: Identifier) ensures spec_path_seq(id).len() == 4 { }
+pub open spec fn spec_last_index(id: Identifier) -> u32 {
+    if spec_path_depth(id) == 0 || spec_path_depth(id) > 4 { 0 } else { spec_path_seq(id)[spec_path_depth(id) as int - 1].n }
+}
+// the identifier of child `n` of `parent`: one level deeper, child number written at the new level
+pub open spec fn spec_child_id(parent: Identifier, n: u32) -> Identifier {
+    spec_from_path((spec_path_depth(parent) + 1) as u8, spec_path_seq(parent).update(spec_path_depth(parent) as int, ChildNumber { n }))
+}
+impl Identifier {
+    #[verifier::external_body]
+    pub fn to_path(&self) -> (r: ExtKeychainPath) ensures r.depth == spec_path_depth(*self), r.path@ == spec_path_seq(*self) { unimplemented!() }
+    #[verifier::external_body]
+    pub fn from_path(path: &ExtKeychainPath) -> (r: Identifier) ensures r == spec_from_path(path.depth, path.path@) { unimplemented!() }
+    #[verifier::external_body]
+    pub fn to_bytes(&self) -> (r: IdBytes) ensures r.id == *self { unimplemented!() }
+}
+pub struct IdBytes { pub id: Identifier }
+pub uninterp spec fn spec_id_bytes(id: Identifier) -> Seq<u8>;
+impl IdBytes {
+    #[verifier::external_body]
+    pub fn to_vec(&self) -> (r: Vec<u8>) ensures r@ == spec_id_bytes(self.id) { unimplemented!() }
+}
+impl ExtKeychainPath {
+    #[verifier::external_body]
+    pub fn last_path_index(&self) -> (r: u32)
+        ensures r == (if self.depth == 0 || self.depth > 4 { 0u32 } else { self.path@[self.depth as int - 1].n }) { unimplemented!() }
+}
+impl Utc {
+    #[verifier::external_body]
+    pub fn now() -> (r: DateTime<Utc>) { unimplemented!() }
+}
+pub struct OnionV3Address { pub b: [u8; 32] }
+pub uninterp spec fn spec_addr_key(parent: Identifier, index: u32) -> SecretKey;
+pub uninterp spec fn spec_ed25519_pub(sk: SecretKey) -> DalekPublicKey;
+pub mod address {
+    pub use crate::address_from_derivation_path;
+}
+#[verifier::external_body]
+pub fn address_from_derivation_path<K: Keychain>(keychain: &K, parent_key_id: &Identifier, index: u32) -> (r: Result<SecretKey, Error>)
+    ensures r matches Ok(k) ==> k == spec_addr_key(*parent_key_id, index) { unimplemented!() }
+impl OnionV3Address {
+    #[verifier::external_body]
+    pub fn from_private(key: &[u8; 32]) -> (r: Result<OnionV3Address, util::OnionV3AddressError>)
+        ensures r matches Ok(a) ==> a.b == spec_ed25519_pub(SecretKey(*key)).b { unimplemented!() }
+    #[verifier::external_body]
+    pub fn to_ed25519(&self) -> (r: Result<DalekPublicKey, util::OnionV3AddressError>)
+        ensures r matches Ok(p) ==> p.b == self.b { unimplemented!() }
+}
+impl From<OnionV3AddressErrorStub> for Error { #[verifier::external_body] fn from(e: OnionV3AddressErrorStub) -> (r: Error) ensures r is OnionV3Address { unimplemented!() } }
+// A-hash: Identifier's derived Hash/Eq obey the HashMap key model
+#[verifier::external_body]
+pub proof fn axiom_identifier_key_model() ensures vstd::std_specs::hash::obeys_key_model::<Identifier>() { }
+// L8: `.clone()` on a tuple value
+#[verifier::external_body]
+pub fn vf_clone<T>(v: &T) -> (r: T) ensures r == *v { unimplemented!() }
